@@ -1,4 +1,5 @@
 import FrappyModel.Klass.Config
+import FrappyModel.Klass.ConfigUnit
 /-
 C10 — a concrete instance of the datatype oracles of `Klass/Config`, used by the driver only
 (the theorems quantify over every `Ops`).  It covers what the generated classes use:
@@ -170,6 +171,7 @@ def checkDT : CDT → Bool
   | .array lo hi m => decide (lo ≤ hi) && checkDT m
   | .tuple _ => true
 
+mutual
 /-- `dt.default` -/
 def dtDefault : CDT → CVal
   | .double lo hi _ => if geOpt 0 lo && leOpt 0 hi then .num 0 else match lo with | some q => .num q | none => .other
@@ -178,7 +180,11 @@ def dtDefault : CDT → CVal
   | .bool => .bool false
   | .enum ms => match ms with | m :: _ => .num (4 * m.2) | [] => .other
   | .array lo _ m => .list (List.replicate lo (dtDefault m))
-  | .tuple _ => .none
+  | .tuple ms => .list (dtDefaultAll ms)          -- `tuple(el.default for el in members)`
+def dtDefaultAll : List CDT → List CVal
+  | [] => []
+  | m :: ms => dtDefault m :: dtDefaultAll ms
+end
 
 def limitDT : LimitKind → CDT → CDT
   | .limits, dt => .tuple [dt, dt]
@@ -231,5 +237,29 @@ def cmdRaises (k : Name) (v : CVal) : Bool :=
 def ops : Ops CDT CVal :=
   { convert := convert, validate := validate, setProp := setProp, checkDT := checkDT, dtDefault := dtDefault,
     ownProp := ownProp, cmdProp := cmdProp, cmdRaises := cmdRaises, limitDT := limitDT, limitDefault := limitDefault }
+
+/-! ## the main unit (datatypes.py: `DataType.unit = ''`, `HasUnit.set_main_unit`, `ArrayOf.unit` / `set_main_unit`,
+`TupleOf.set_main_unit`) -/
+
+/-- `datatype.unit`: FloatRange has the property; an array shows the unit of its members; everything else `''` -/
+def unitOf : CDT → String
+  | .double _ _ u => u
+  | .array _ _ m => unitOf m
+  | _ => ""
+
+mutual
+/-- `datatype.set_main_unit(unit)`: `if '$' in self.unit: unit.replace('$', unit)`; arrays and tuples hand it to
+their members -/
+def setMainUnit (mu : String) : CDT → CDT
+  | .double lo hi u => .double lo hi (u.replace "$" mu)
+  | .array lo hi m => .array lo hi (setMainUnit mu m)
+  | .tuple ms => .tuple (setMainUnitAll mu ms)
+  | dt => dt
+def setMainUnitAll (mu : String) : List CDT → List CDT
+  | [] => []
+  | m :: ms => setMainUnit mu m :: setMainUnitAll mu ms
+end
+
+def unitOps : UnitOps CDT := ⟨unitOf, setMainUnit⟩
 
 end Frappy.ConfigDT
